@@ -38,9 +38,17 @@ type c16call struct {
 type c16key struct{}
 
 func scenC16(r *Run) {
-	modes := []string{"failover", "failtry", "failfast", "forking", "broadcast", "failover", "concurrent-failover", "failtry"}
+	modes := []string{"failover", "failtry", "failfast", "forking", "broadcast", "failover", "concurrent-failover", "failtry", "concurrent-failover"}
 	mode := modes[r.Index%len(modes)]
 	sub := r.Index / len(modes)
+	// failover and failtry occur twice in the rotation: their two slots count through consecutive sub-indices, so
+	// that 9*1296 consecutive runs enumerate the whole configuration x sequence-block matrix of each
+	switch r.Index % len(modes) {
+	case 0, 1, 6:
+		sub = sub * 2
+	case 5, 7, 8:
+		sub = sub*2 + 1
+	}
 	if v, ok := r.Opt["mode"]; ok {
 		mode = v
 		sub = r.Index
@@ -48,7 +56,10 @@ func scenC16(r *Run) {
 	r.Param("mode", mode)
 	RegisterKind("mock")
 	stalls := []time.Duration(nil)
-	sim := r.StartSim(verifsim.Config{IdleCap: time.Hour, StepCap: 200000, StallChoices: stalls})
+	// preemption points only inside the cluster plugin: that is where calls share state (the failover index), and
+	// concentrating the yields there makes the scheduler's preemptions land in its few narrow windows
+	sim := r.StartSim(verifsim.Config{IdleCap: time.Hour, StepCap: 200000, StallChoices: stalls,
+		GapChoices: []int{0, 1, 1, 1, 2, 2, 3, 5, 8}, PCTSteps: 250}, "rpc/plugins/cluster")
 	switch mode {
 	case "forking", "broadcast":
 		c16Fan(r, sim, mode, sub)
@@ -137,7 +148,23 @@ func c16Retry(r *Run, sim *verifsim.Sim, mode string, sub int) {
 	if sub%3 == 2 {
 		retryOverride = (retry + 1) % 4
 	}
+	sub /= 3
 	block := sub
+	if mode == "concurrent-failover" {
+		// this mode is about calls racing on the shared failover index: three quarters of its runs use
+		// configurations in which calls actually fail over (idempotent, retry >= 2, at least two servers)
+		if block%4 != 0 {
+			retry = 2 + retry%2
+			defIdem = true
+			if override == "false" {
+				override = "true"
+			}
+			if nsrv < 2 {
+				nsrv = 2 + block%3
+			}
+			retryOverride = -1
+		}
+	}
 	r.Param("retry", retry)
 	r.Param("idempotent_default", defIdem)
 	r.Param("idempotent_override", override)
@@ -268,11 +295,24 @@ func c16Retry(r *Run, sim *verifsim.Sim, mode string, sub int) {
 		return true
 	}
 	if mode == "concurrent-failover" {
-		ncalls := 2 + r.Plan(2)
+		ncalls := 2 + r.Plan(4)
+		if block%4 == 3 {
+			ncalls = 5 + r.Plan(4) // many calls hammering the shared index at the same instants
+		}
 		var calls []*c16call
 		fin := 0
+		// prefer scripts that begin with a failure
+		var failing []string
+		for _, sq := range mine {
+			if len(sq) > 0 && sq[0] != 'S' {
+				failing = append(failing, sq)
+			}
+		}
+		if len(failing) == 0 || r.Plan(4) == 0 {
+			failing = mine
+		}
 		for i := 0; i < ncalls; i++ {
-			c := &c16call{id: i + 1, script: mine[r.Plan(len(mine))]}
+			c := &c16call{id: i + 1, script: failing[r.Plan(len(failing))]}
 			calls = append(calls, c)
 			sim.Task(fmt.Sprintf("call%d", i), func() {
 				c.res, c.err = client.InvokeContext(mkctx(c), "f", []interface{}{c.id})
